@@ -55,7 +55,7 @@ ALL = {
  "C15": E("proof", "Coq theorems (Props/C15.v) for ALL schedules and budgets of the parallel-solver LTS: performed <= budget, reported = performed, parallelism bound, closed is final, every state can close within a bounded number of steps after cancellation, zero budget, barrier. Tie: the REAL parallel solver (NewSkeletonParallelSolver) with scripted factories vs the extracted SolverLoop.pinit/prun on one canonical schedule (iterations granted per started solver, counted at End and in run.Data, solutions delivered) - Props/Grants.v proves these observables independent of the schedule; protocol projection of the regenerated skeletons; option grid on the real solver with event counts and close times.",
           "Coq proof (invariants over the LTS) + regenerated-skeleton obligations + option-grid runs",
           "partial: wall-clock 'shortly after' checked with slack; Go timers/scheduler not modelled."),
- "C16": E("proof", "Coq theorems (Props/C16.v): on well-dimensioned inputs the modelled engine core never falls back to a lookup default: every stop on every reachable route is a declared stop, every matrix lookup is in range. PARTIAL: the reflection-heavy decoding/validation glue of the factory is covered only by the differential crash search (corpus of past crashes; structured full-feature stream; precedence-DAG stream; no-mix stream; malformed stream; all through NewModel / NewSolution / ParallelSolver.Solve; and models assembled through the public Go API with vehicles sharing vehicle types and sparse per-type settings), which is not a proof.",
+ "C16": E("proof", "Coq theorems (Props/C16.v): on well-dimensioned inputs the modelled engine core never falls back to a lookup default: every stop on every reachable route is a declared stop, every matrix lookup is in range; and (Props/PlanUnitsBuild.v) the factory's grouping of precedence relations into plan units (allSequences / mergeUnits, modelled with explicit slice indexing) never indexes out of range and yields the connected components - tied to factory.NewModel by comparing the plan units of built models. PARTIAL: the reflection-heavy decoding/validation glue of the factory is covered only by the differential crash search (corpus of past crashes; structured full-feature stream; precedence-DAG stream; no-mix stream; malformed stream; all through NewModel / NewSolution / ParallelSolver.Solve; and models assembled through the public Go API with vehicles sharing vehicle types and sparse per-type settings), which is not a proof.",
           "Coq proof for the modelled core + crash search (structured, malformed and API-built model streams) on the implementation",
           "partial: factory glue, API-built models and features outside the modelled core are searched, not proved."),
  "C18": E("proof", "Coq theorems (Props/C18.v): on every reachable state, executing a move and un-planning the unit again restores routes, cached values, scores exactly and collections as sets, and the un-plan cannot fail; a probe sequence preserves the solution. Tie: check.SolutionCheck at each verbosity on states of generated histories: the snapshot afterwards must equal the model's unchanged state; units reported plannable are re-planned on a copy taken before the check; a nested stage with stop groups and user constraints whose estimates are optimistic (the check then executes best moves that fail).",
